@@ -1,6 +1,7 @@
 import Spine.EventsHist
 import Spine.EventsLock
 import Spine.EventsConn
+import Spine.EventsLive
 /-!
 # C15 — the event bus delivers every state change once, core first, without deadlock
 
@@ -205,5 +206,45 @@ theorem handover_deadlock_witness :
     (s.l.holder = some 1 ∧ s.muHolder = some 2 ∧ phaseOf s.l 1 = some 1 ∧
       ¬ HEnabled s (.unsubscribe (0, 1)) ∧ ¬ HEnabled s (.subscribe (1, 5)) ∧ ¬ HEnabled s (.acquire 2)) ∧
     (Enabled (lrun evs) (.unsubscribe (0, 1)) ∧ Enabled (lrun evs) (.subscribe (1, 5))) := by decide
+
+/-! ## Completion: no reachable state of the lock model is a deadlock (`Spine/EventsLive.lean`) -/
+
+/-- "… application handlers run asynchronously … without blocking it": from EVERY reachable state of the model with
+    both locks — any history of subscriptions, publications from any number of goroutines, handlers that (un)subscribed
+    or published from inside HandleEvent, some publication holding `muHandle`, others queued, application handlers
+    pending — there is a continuation made of steps of the publishing goroutines only (`acquire`, `deliver`,
+    `release`), each ENABLED (waiting for no lock) when it is taken, after which every started `Publish` has returned
+    and `muHandle` is free. No application handler has to run, no handler or subscriber has to do anything. -/
+theorem c15_all_publications_return (evs : List LEv) : ∃ fin : List LEv,
+    (∀ e ∈ fin, isPublisherStep e = true) ∧ EnabledAll (lrun evs) fin ∧
+    (∀ q ∈ (lrun (evs ++ fin)).bus.pubs, q.phase = 2) ∧ (lrun (evs ++ fin)).holder = none :=
+  Bus.all_publications_return evs
+
+/-- "Every published event REACHES each handler subscribed at publication time exactly once", the liveness half:
+    from every reachable state there is a continuation of publisher steps and of steps of the spawned handler
+    goroutines (`appRun`), each enabled when taken, after which every publication has returned, no delivery is pending
+    and every (publication, handler) pair has been delivered exactly as often as it is owed (once iff the handler was
+    in the publication's snapshot). With `c15_exactly_once` (never more than owed, in every state): exactly once. -/
+theorem c15_everything_owed_is_delivered (evs : List LEv) : ∃ fin : List LEv,
+    (∀ e ∈ fin, isPublisherStep e = true ∨ isAppRun e = true) ∧ EnabledAll (lrun evs) fin ∧
+    (lrun (evs ++ fin)).bus.pending = [] ∧ (∀ q ∈ (lrun (evs ++ fin)).bus.pubs, q.phase = 2) ∧
+    ∀ p h, (lrun (evs ++ fin)).bus.delivered.count (p, h) = owed (lrun (evs ++ fin)).bus p h :=
+  Bus.everything_owed_is_delivered evs
+
+/-- the step behind both: whenever some publication has not returned, some publishing goroutine has an enabled step
+    that strictly decreases the measure `unfinished` (in every state satisfying the invariant `GInv`, which every
+    reachable state does: `Bus.ginv_lrun`) -/
+theorem c15_progress (evs : List LEv) (hex : ∃ q ∈ (lrun evs).bus.pubs, q.phase ≠ 2) :
+    ∃ e, isPublisherStep e = true ∧ Enabled (lrun evs) e ∧ unfinished (lstep (lrun evs) e) < unfinished (lrun evs) :=
+  Bus.progress (lrun evs) (Bus.ginv_lrun evs) hex
+
+/-- non-vacuity: publication 0 has returned with its application handler still pending, publication 1 holds `muHandle`
+    (core handlers not yet run), publication 2 is queued: `acquire 2` is NOT enabled, the continuation of five publisher
+    steps is, and afterwards all three have returned without a single `appRun`; three more steps deliver the rest -/
+example : (lrun exEvs).holder = some 1 ∧ ¬ EnabledAll (lrun exEvs) [.acquire 2] ∧
+    EnabledAll (lrun exEvs) exFin3 ∧ (lrun (exEvs ++ exFin3)).bus.pubs.map (·.phase) = [2, 2, 2] ∧
+    (lrun (exEvs ++ exFin3)).bus.pending = [(0, (1, 7)), (1, (1, 7)), (2, (1, 7))] ∧
+    EnabledAll (lrun exEvs) exFin4 ∧ (lrun (exEvs ++ exFin4)).bus.pending = [] ∧
+    (lrun (exEvs ++ exFin4)).bus.delivered.count (2, (1, 7)) = 1 := by decide
 
 end Spine.Props.C15
